@@ -100,6 +100,19 @@ func genC01Case(t *rapid.T) colCase {
 		c := genLifecycleCase(t)
 		c.Cfg.KeptSize = uint(rapid.IntRange(1, 3).Draw(t, "keptperworker") * c.Cfg.Workers)
 		return c
+	case 3:
+		// stress relief periods: some spans arrive while the node is in stress relief (they take
+		// ProcessSpanImmediately). The engine keeps the premise "relief does not switch while the
+		// trace is buffered"; a trace first seen under relief is decided there and then, and its
+		// later spans - under relief or after it has switched off - must follow that decision.
+		c := genLifecycleCase(t)
+		c.Cfg.StressRate = rapid.SampledFrom([]uint64{1, 2, 3, 5}).Draw(t, "stressrate")
+		for i := range c.Ops {
+			if c.Ops[i].Op == "span" && rapid.IntRange(0, 2).Draw(t, "understress") == 0 {
+				c.Ops[i].Via = "stress"
+			}
+		}
+		return c
 	}
 	return genLifecycleCase(t)
 }
